@@ -345,7 +345,11 @@ func genReload(r *rand.Rand, id string, size int, total int) []string {
 	peers := g.r.Perm(total)[:2+g.pick(2)]
 	kind := []string{"kv", "log", "doc"}[g.pick(3)]
 	keys := g.keys(1 + g.pick(2))
-	g.add("scn %s kind=%s acl=%s peers=%s", id, kind, joinInts(peers), joinInts(peers))
+	sortfn := ""
+	if g.pick(3) == 0 {
+		sortfn = " sortfn=revtie"
+	}
+	g.add("scn %s kind=%s acl=%s peers=%s%s", id, kind, joinInts(peers), joinInts(peers), sortfn)
 	write := func(p int) {
 		switch kind {
 		case "kv":
@@ -937,7 +941,13 @@ func genLimit(r *rand.Rand, id string, size int, total int) []string {
 	g := &Gen{r: r}
 	peers := g.r.Perm(total)[:1+g.pick(3)]
 	kind := []string{"log", "kv"}[g.pick(2)]
-	g.add("scn %s kind=%s acl=%s peers=%s", id, kind, joinInts(peers), joinInts(peers))
+	// in a third of the scenarios the database is opened with a custom sort function (it must govern the
+	// store's own log exactly as it governs the logs Load builds)
+	sortfn := ""
+	if g.pick(3) == 0 {
+		sortfn = " sortfn=revtie"
+	}
+	g.add("scn %s kind=%s acl=%s peers=%s%s", id, kind, joinInts(peers), joinInts(peers), sortfn)
 	p := peers[0]
 	n := 0
 	steps := 1 + g.pick(size)
